@@ -494,6 +494,118 @@ pub fn stuck_writer_case(dir: &std::path::PathBuf, requests: u32) -> Result<Opti
     res
 }
 
+/// A silent peer that has also stopped reading, with only SHORT messages to write to it (real
+/// loopback TCP with 4 KiB socket buffers, paused clock; the harness plays the manager and the
+/// peer): the peer handshakes, unchokes us and then neither reads nor writes; pieces complete
+/// elsewhere, one 9-byte Have per piece, until the connection task's write cannot proceed. Within
+/// 400 virtual seconds the task must have reported the end of the connection (KillReq, whatever
+/// the reason): nothing but silence came from the peer for more than three intervals.
+pub fn stuck_small_writer_case(haves: usize) -> Result<Option<(&'static str, String)>, String> {
+    use rdest::verif::{Bitfield, BroadCmd, InitCmd, PeerCmd, PeerHandler, UnchokeCmd};
+    use std::cell::RefCell;
+    use std::rc::Rc;
+    use tokio::io::{AsyncReadExt, AsyncWriteExt};
+    use tokio::sync::{broadcast, mpsc};
+    rdest::verif::clear_snapshots();
+    rdest::verif::set_choices(vec![]);
+    rdest::verif::set_net(None);
+    core::set_quiet_panics(true);
+    let info_hash = [9u8; 20];
+    let pieces_num = haves + 1;
+    let rt = tokio::runtime::Builder::new_current_thread().enable_all().start_paused(true).build().map_err(|e| e.to_string())?;
+    let local = tokio::task::LocalSet::new();
+    async fn real_ms(ms: u64) {
+        let until = std::time::Instant::now() + std::time::Duration::from_millis(ms);
+        while std::time::Instant::now() < until {
+            tokio::task::yield_now().await;
+            std::thread::sleep(std::time::Duration::from_micros(200));
+        }
+    }
+    local.block_on(&rt, async {
+        let lsock = tokio::net::TcpSocket::new_v4().map_err(|e| e.to_string())?;
+        lsock.set_recv_buffer_size(4096).map_err(|e| e.to_string())?;
+        lsock.bind("127.0.0.1:0".parse().unwrap()).map_err(|e| e.to_string())?;
+        let listener = lsock.listen(4).map_err(|e| e.to_string())?;
+        let peer_addr = listener.local_addr().map_err(|e| e.to_string())?;
+        let csock = tokio::net::TcpSocket::new_v4().map_err(|e| e.to_string())?;
+        csock.set_send_buffer_size(4096).map_err(|e| e.to_string())?;
+        let (ours, accepted) = tokio::join!(csock.connect(peer_addr), listener.accept());
+        let ours = ours.map_err(|e| e.to_string())?;
+        let (mut peer, _) = accepted.map_err(|e| e.to_string())?;
+        let addr = peer_addr.to_string();
+        let (peer_tx, mut peer_rx) = mpsc::channel(64);
+        let (broad, broad_rx) = broadcast::channel(32);
+        let killed: Rc<RefCell<Option<(u64, String)>>> = Rc::new(RefCell::new(None));
+        let killed2 = killed.clone();
+        let t0 = tokio::time::Instant::now();
+        tokio::task::spawn_local(async move {
+            while let Some(cmd) = peer_rx.recv().await {
+                match cmd {
+                    PeerCmd::Init { resp_ch, .. } => {
+                        let _ = resp_ch.send(InitCmd::SendBitfield { bitfield: Bitfield::from_vec(&vec![false; pieces_num]) });
+                    }
+                    PeerCmd::RecvUnchoke { resp_ch, .. } => {
+                        let _ = resp_ch.send(UnchokeCmd::Ignore);
+                    }
+                    PeerCmd::KillReq { reason, .. } => {
+                        if killed2.borrow().is_none() {
+                            *killed2.borrow_mut() = Some((t0.elapsed().as_secs(), reason));
+                        }
+                    }
+                    _ => (),
+                }
+            }
+        });
+        let mut handler = PeerHandler::new(addr.clone(), *crate::world::OWN_ID, None, info_hash, pieces_num, peer_tx, broad_rx);
+        let task = tokio::task::spawn_local(async move { handler.run_outgoing(ours).await });
+        peer.write_all(&[refwire::encode(&refwire::handshake(&info_hash, b"-HS0001-smallwrites0")), refwire::encode(&Msg::Unchoke)].concat()).await.map_err(|e| e.to_string())?;
+        // the peer reads the client's handshake and bitfield, then never again
+        let mut hello = vec![0u8; 68 + 4 + 1 + (pieces_num + 7) / 8];
+        let mut got = 0usize;
+        let started = std::time::Instant::now();
+        while got < hello.len() {
+            if started.elapsed() > std::time::Duration::from_secs(10) {
+                return Err("no handshake and bitfield from the client within 10 s".to_string());
+            }
+            tokio::select! {
+                biased;
+                r = peer.read(&mut hello[got..]) => match r {
+                    Ok(0) | Err(_) => return Err("the client closed the connection during the handshake".to_string()),
+                    Ok(n) => got += n,
+                },
+                _ = real_ms(5) => {}
+            }
+        }
+        real_ms(100).await;
+        // pieces complete elsewhere until the task no longer takes the broadcasts
+        let mut sent = 0usize;
+        'outer: for piece_index in 0..haves {
+            if broad.send(BroadCmd::SendHave { piece_index }).is_err() {
+                break;
+            }
+            sent += 1;
+            let waiting = std::time::Instant::now();
+            while broad.len() >= 16 {
+                real_ms(1).await;
+                if waiting.elapsed() > std::time::Duration::from_millis(500) {
+                    break 'outer; // the task sits in its write
+                }
+            }
+        }
+        let blocked = broad.len() >= 16;
+        // silence: 400 virtual seconds (more than three keep-alive intervals)
+        tokio::time::sleep(std::time::Duration::from_secs(400)).await;
+        real_ms(200).await;
+        let k = killed.borrow().clone();
+        task.abort();
+        drop(peer);
+        match k {
+            Some(_) => Ok(None),
+            None => Ok(Some(("silent-peer-not-dropped", format!("a peer handshook, unchoked us and then neither read nor wrote anything (socket buffers of 4 KiB); {} pieces completed elsewhere (one 9-byte Have each; the connection task stopped taking broadcasts: {}): 400 virtual seconds later the task has not reported the end of the connection, so the manager keeps the peer's record and reservation", sent, blocked)))),
+        }
+    })
+}
+
 pub fn run(ctx: &Ctx) -> Outcome {
     let mut total = explore::Stats { exhaustive: true, ..Default::default() };
     let mut per = vec![];
@@ -540,6 +652,17 @@ pub fn run(ctx: &Ctx) -> Outcome {
                 Err(e) => ctx.machinery_error(format!("stuck-writer run ({} requests) could not be carried out: {}", requests, e)),
             }
         }
+        // the same with short messages only (a Have per piece completed elsewhere)
+        for haves in [40usize, 20000] {
+            match stuck_small_writer_case(haves) {
+                Ok(None) => per.push(json!({"scenario": format!("silent peer that does not read, up to {} Have frames to write (real socket with 4 KiB buffers, paused clock)", haves), "ok": true})),
+                Ok(Some((class, why))) => {
+                    per.push(json!({"scenario": format!("silent peer that does not read, up to {} Have frames to write (real socket with 4 KiB buffers, paused clock)", haves), "violation": class}));
+                    ctx.violation(class, why, json!({"scenario": "stucksmall", "haves": haves, "history": []}));
+                }
+                Err(e) => ctx.machinery_error(format!("stuck-small-writer run ({} haves) could not be carried out: {}", haves, e)),
+            }
+        }
     }
     let mut o = Outcome::new("model_checking");
     explore::stats_outcome(&total, &mut o);
@@ -555,6 +678,22 @@ pub fn replay(_ctx: &Ctx, r: &Value) -> i32 {
     if name == "stuck" {
         let dir = core::private_cwd("c20", "replay");
         return match stuck_writer_case(&dir, r["requests"].as_u64().unwrap_or(3000) as u32) {
+            Ok(Some((class, why))) => {
+                println!("VIOLATION property=C20 replay=<this file>\n  class={} {}", class, why);
+                1
+            }
+            Ok(None) => {
+                println!("holds for this run");
+                0
+            }
+            Err(e) => {
+                eprintln!("could not be carried out: {}", e);
+                2
+            }
+        };
+    }
+    if name == "stucksmall" {
+        return match stuck_small_writer_case(r["haves"].as_u64().unwrap_or(20000) as usize) {
             Ok(Some((class, why))) => {
                 println!("VIOLATION property=C20 replay=<this file>\n  class={} {}", class, why);
                 1
